@@ -50,22 +50,24 @@ type Judged struct {
 	Dlo int64  `json:"dlo"`
 	Dhi int64  `json:"dhi"`
 	Mx  [2]int `json:"mx"`
+	Ls  []Line `json:"ls,omitempty"` // the breaking's own lines (long lists: no global line table)
 }
 
 type Verdict struct {
-	Items  [][6]int `json:"items"`
-	Width  int      `json:"width"`
-	Legal  []int    `json:"legal"`
-	Forced []int    `json:"forced"`
-	Ln     []Line   `json:"ln"`
-	Brk    []Judged `json:"brk"`
-	SF     bool     `json:"sf"`
-	MinD   int64    `json:"mind"`
-	AllInf bool     `json:"allinf"`
-	SShr   bool     `json:"sshr"`
-	NoShr  bool     `json:"noshr"`
-	TStar  [2]int   `json:"tstar"`
-	Feat   []string `json:"feat"`
+	Items    [][6]int `json:"items"`
+	Width    int      `json:"width"`
+	Legal    []int    `json:"legal"`
+	Forced   []int    `json:"forced"`
+	Ln       []Line   `json:"ln"`
+	Brk      []Judged `json:"brk"`
+	SF       bool     `json:"sf"`
+	MinD     int64    `json:"mind"`
+	AllInf   bool     `json:"allinf"`
+	Complete bool     `json:"complete"` // brk holds every breaking (otherwise: exactly those without a surely infeasible line)
+	SShr     bool     `json:"sshr"`
+	NoShr    bool     `json:"noshr"`
+	TStar    [2]int   `json:"tstar"`
+	Feat     []string `json:"feat"`
 }
 
 // Scenario is what a replay file holds.
@@ -133,13 +135,17 @@ func CallLinebreak(items []text.Item, width float64) Result {
 			r.Ratio = append(r.Ratio, b.Ratio)
 		}
 	}()
+	// watchdog: generous, because a starved goroutine on a loaded machine must not look like non-termination
 	select {
 	case r := <-ch:
 		return r
-	case <-time.After(10 * time.Second):
+	case <-time.After(Watchdog):
 		return Result{Hung: true}
 	}
 }
+
+// Watchdog is the time after which a call on an instance of a few hundred items counts as not terminating.
+const Watchdog = 120 * time.Second
 
 func key(b []int) string {
 	var sb strings.Builder
@@ -186,7 +192,7 @@ func judge(v *Verdict, r Result, s float64) (ms []core.Mismatch) {
 		ms = append(ms, core.Mismatch{Signature: sig, Detail: fmt.Sprintf("scale %.4g: ", s) + fmt.Sprintf(format, a...)})
 	}
 	if r.Hung {
-		add("timeout-linebreak", "Linebreak did not return within 10 s")
+		add("timeout-linebreak", "Linebreak did not return within %v", Watchdog)
 		return
 	}
 	if r.Panic != "" {
@@ -232,6 +238,13 @@ func judge(v *Verdict, r Result, s float64) (ms []core.Mismatch) {
 	for i := range v.Ln {
 		lines[[2]int{v.Ln[i].A, v.Ln[i].B}] = &v.Ln[i]
 	}
+	var res *Judged
+	k := key(r.Pos)
+	for i := range v.Brk {
+		if key(v.Brk[i].B) == k {
+			res = &v.Brk[i]
+		}
+	}
 	feat := v.feature()
 	// signature of a wrongly reported line: specific when the overflow fallback produced the breaking or the scenario
 	// has an empty line followed by glue (negative running sums)
@@ -250,9 +263,15 @@ func judge(v *Verdict, r Result, s float64) (ms []core.Mismatch) {
 			a = r.Pos[i-1]
 		}
 		ln := lines[[2]int{a, p}]
+		if ln == nil && res != nil && i < len(res.Ls) {
+			ln = &res.Ls[i]
+		}
 		if ln == nil {
-			add("machinery", "line %d->%d missing in the spec's table", a, p)
-			return
+			if len(v.Ln) > 0 {
+				add("machinery", "line %d->%d missing in the spec's table", a, p)
+				return
+			}
+			continue // long list, result not among the judged breakings: it has a surely infeasible line (reported below)
 		}
 		w := r.Width[i] / s
 		if math.IsNaN(w) || math.Abs(w-float64(ln.L)) > 1e-9*math.Max(1, math.Abs(float64(ln.L))) {
@@ -275,23 +294,23 @@ func judge(v *Verdict, r Result, s float64) (ms []core.Mismatch) {
 			}
 		}
 	}
-	var res *Judged
-	k := key(r.Pos)
-	for i := range v.Brk {
-		if key(v.Brk[i].B) == k {
-			res = &v.Brk[i]
-		}
-	}
-	if res == nil {
-		add("machinery", "returned breaking %v not among the spec's breakings", r.Pos)
-		return
-	}
 	// a better breaking existed and was not found: specific deviation names, grouped under the scenario feature if any
 	opt := func(kind, format string, a ...any) {
 		if feat != "" {
 			add("optimum-lost"+feat, kind+": "+format, a...)
 		} else {
 			add(kind, format, a...)
+		}
+	}
+	if res == nil {
+		// the table holds every breaking without a surely infeasible line: the result has one
+		if v.Complete {
+			add("machinery", "returned breaking %v not among the spec's breakings", r.Pos)
+			return
+		}
+		res = &Judged{B: r.Pos, Cls: "I", Shr: "B", Mx: [2]int{1, 0}}
+		if !v.SF {
+			return
 		}
 	}
 	if v.SF {
@@ -360,7 +379,7 @@ func (d Driver) Replay(c *core.Ctx, raw json.RawMessage) []core.Mismatch {
 func cfg(mode string, nfree, nrand, minw, maxw int, alpha string, mc bool) string {
 	s := fmt.Sprintf("SPECIFICATION Spec\nCONSTANTS Mode = \"%s\"\n NFree = %d\n NRand = %d\n MinW = %d\n MaxW = %d\n Alpha = \"%s\"\nCHECK_DEADLOCK FALSE\n", mode, nfree, nrand, minw, maxw, alpha)
 	if mc {
-		s += "INVARIANTS BruteLegal LinesSane OptSane ScaleInv\n"
+		s += "INVARIANTS BruteLegal LinesSane OptSane ScaleInv FeasComplete PathsAgree\n"
 	} else {
 		s += "INVARIANTS EmitInv\n"
 	}
@@ -443,13 +462,13 @@ func (d Driver) Run(c *core.Ctx) error {
 		c.Count(n*int64(len(Embeddings)), 0, n*int64(len(Embeddings)))
 		c.AddExtra("tlc_scenarios", n)
 	}
-	run(tlc.Opts{Module: "KnuthPlass", Config: cfg("exh", 3, 0, 2, 12, "std", false)})
-	run(tlc.Opts{Module: "KnuthPlass", Config: cfg("exh", 4, 0, c.Pick(4, 3), c.Pick(9, 12), "std", false)})
-	if c.Thorough() {
-		run(tlc.Opts{Module: "KnuthPlass", Config: cfg("exh", 5, 0, 4, 9, "std", false), Timeout: 30 * time.Minute})
+	onlyPara := os.Getenv("C17_ONLY") == "para" // development aid
+	if !onlyPara {
+		runSmall(c, run)
 	}
-	for _, nf := range []int{5, 6, 7, 8, 9} {
-		run(tlc.Opts{Module: "KnuthPlass", Config: cfg("rand", nf, c.Pick(4000, 30000), 4, 12, "ext", false), Seed: c.Seed + int64(nf)})
+	// paragraph-shaped lists: many feasible breakings of nearly equal badness (flagged / fitness terms, class pruning)
+	for _, pc := range [][3]int{{9, 20, 25}, {9, 26, 31}, {11, 26, 33}} {
+		run(tlc.Opts{Module: "KnuthPlass", Config: cfg("para", pc[0], c.Pick(500, 5000), pc[1], pc[2], "std", false), Seed: c.Seed + int64(100+pc[0]+pc[1])})
 	}
 	c.Count(0, nontrivial, 0)
 	c.SetExtra("scenarios_with_feasible_breaking", feas)
@@ -458,8 +477,22 @@ func (d Driver) Run(c *core.Ctx) error {
 	c.SetExtra("embeddings", Embeddings)
 
 	// 3. code -> spec: recorded calls
-	d.traces(c)
+	if !onlyPara {
+		d.traces(c)
+	}
 	return nil
+}
+
+// runSmall: exhaustive and random short lists over the full alphabet.
+func runSmall(c *core.Ctx, run func(tlc.Opts)) {
+	run(tlc.Opts{Module: "KnuthPlass", Config: cfg("exh", 3, 0, 2, 12, "std", false)})
+	run(tlc.Opts{Module: "KnuthPlass", Config: cfg("exh", 4, 0, c.Pick(4, 3), c.Pick(9, 12), "std", false)})
+	if c.Thorough() {
+		run(tlc.Opts{Module: "KnuthPlass", Config: cfg("exh", 5, 0, 4, 9, "std", false), Timeout: 30 * time.Minute})
+	}
+	for _, nf := range []int{5, 6, 7, 8, 9} {
+		run(tlc.Opts{Module: "KnuthPlass", Config: cfg("rand", nf, c.Pick(2000, 30000), 4, 12, "ext", false), Seed: c.Seed + int64(nf)})
+	}
 }
 
 func key2(v *Verdict) string {
